@@ -14,13 +14,13 @@ Definition simple (c : N) : bool := negb (c =? 92) && negb (is_private_use c).
 (* reading what Display wrote for the body, up to the closing quote, gives the value back:
    ALSO when the value contains the string's own quote character *)
 Lemma read_display q v rest : (q = 34 \/ q = 39) -> forallb simple v = true ->
-  read_body q (flat_map (display_char (Some q)) v ++ q :: rest) = Some (v, rest).
+  read_body q (disp_body q v ++ q :: rest) = Some (v, rest).
 Proof.
   intros Hq. induction v as [|c r IH]; intros H.
   - cbn. rewrite N.eqb_refl. reflexivity.
   - cbn in H. apply andb_true_iff in H. destruct H as [Hc Hr]. unfold simple in Hc.
     apply andb_true_iff in Hc. destruct Hc as [H92 Hp]. rewrite negb_true_iff in H92, Hp.
-    cbn [flat_map]. unfold display_char at 1.
+    cbn [disp_body].
     destruct (N.eqb_spec c q) as [e|ne].
     + subst c. cbn [app read_body]. rewrite H92.
       assert (E92 : (92 =? q) = false) by (destruct Hq; subst q; reflexivity).
@@ -29,35 +29,33 @@ Proof.
 Qed.
 
 Lemma roundtrip k v : k <> QNone -> forallb simple v = true ->
-  reprint (mkStr v k) = Some (css_display (mkStr v k), []).
+  reprint (mkStr v k) = Some (display_q (mkStr v k), []).
 Proof.
   intros Hk Hv. unfold reprint. cbn [s_q].
   assert (Hq : quote_char k = Some (qchar k)) by (destruct k; try reflexivity; congruence).
   assert (Hq2 : qchar k = 34 \/ qchar k = 39) by (destruct k; auto).
-  rewrite Hq. unfold css_display at 1. cbn [s_q s_val]. rewrite Hq.
+  rewrite Hq. unfold display_q at 1. cbn [s_q s_val]. rewrite Hq.
   unfold read_quoted. rewrite N.eqb_refl.
-  change (flat_map (display_char (Some (qchar k))) v ++ [qchar k])
-    with (flat_map (display_char (Some (qchar k))) v ++ qchar k :: []).
+  change (disp_body (qchar k) v ++ [qchar k]) with (disp_body (qchar k) v ++ qchar k :: []).
   rewrite (read_display (qchar k) v [] Hq2 Hv). reflexivity.
 Qed.
 
 (* through the value parser (pref_dquotes): for the quoting rsass itself chooses *)
 Lemma roundtrip_value k v : k <> QNone -> forallb simple v = true ->
   pref_dquotes (mkStr v k) = mkStr v k ->
-  reprint_value (mkStr v k) = Some (css_display (mkStr v k), []).
+  reprint_value (mkStr v k) = Some (display_q (mkStr v k), []).
 Proof.
   intros Hk Hv Hp. unfold reprint_value. cbn [s_q].
   assert (Hq : quote_char k = Some (qchar k)) by (destruct k; try reflexivity; congruence).
   assert (Hq2 : qchar k = 34 \/ qchar k = 39) by (destruct k; auto).
-  rewrite Hq. unfold css_display at 1. cbn [s_q s_val]. rewrite Hq.
+  rewrite Hq. unfold display_q at 1. cbn [s_q s_val]. rewrite Hq.
   unfold read_quoted. rewrite N.eqb_refl.
-  change (flat_map (display_char (Some (qchar k))) v ++ [qchar k])
-    with (flat_map (display_char (Some (qchar k))) v ++ qchar k :: []).
+  change (disp_body (qchar k) v ++ [qchar k]) with (disp_body (qchar k) v ++ qchar k :: []).
   rewrite (read_display (qchar k) v [] Hq2 Hv). rewrite Hp. reflexivity.
 Qed.
 
 (* the former F12 witness: a, double quote, b in double quotes - with a single quote too, so
    that double quotes stay the preferred quoting - now reads back *)
 Lemma escaped_quote_reads_back :
-  reprint_value (mkStr [97;34;98;39;99] QDouble) = Some (css_display (mkStr [97;34;98;39;99] QDouble), []).
+  reprint_value (mkStr [97;34;98;39;99] QDouble) = Some (display_q (mkStr [97;34;98;39;99] QDouble), []).
 Proof. vm_compute. reflexivity. Qed.
